@@ -1,7 +1,7 @@
 //! An overlay file system combining two filesystems, an upper layer with read/write access and a lower layer with only read access
 
 use crate::error::VfsErrorKind;
-use crate::{FileSystem, SeekAndRead, SeekAndWrite, VfsMetadata, VfsPath, VfsResult};
+use crate::{FileSystem, SeekAndRead, SeekAndWrite, VfsFileType, VfsMetadata, VfsPath, VfsResult};
 use std::collections::HashSet;
 
 use std::time::SystemTime;
@@ -110,6 +110,14 @@ impl FileSystem for OverlayFS {
 
     fn create_dir(&self, path: &str) -> VfsResult<()> {
         self.ensure_has_parent(path)?;
+        if self.exists(path)? {
+            // occupied, possibly only in a lower layer which the upper layer cannot see
+            return Err(match self.metadata(path)?.file_type {
+                VfsFileType::Directory => VfsErrorKind::DirectoryExists,
+                VfsFileType::File => VfsErrorKind::FileExists,
+            }
+            .into());
+        }
         self.write_path(path)?.create_dir()?;
         let whiteout_path = self.whiteout_path(path)?;
         if whiteout_path.exists()? {
